@@ -713,6 +713,19 @@ def cache_tracks_arguments():
     return any(isinstance(n, ast.Attribute) and n.attr == "arguments" for n in ast.walk(fn))
 
 
+def cache_tracks_structure():
+    """`Schema._current_resolvers` covers what the validator READS, not only resolvers and arguments: root types, names,
+    interfaces, union members, enum values, directive locations (fix C13-S12)"""
+    try:
+        fn = py2lean.find_function(SCHEMA.read_text(), "_current_resolvers", cls="Schema")
+    except py2lean.Untranslatable:
+        return False
+    attrs = {n.attr for n in ast.walk(fn) if isinstance(n, ast.Attribute)} | \
+            {n.value for n in ast.walk(fn) if isinstance(n, ast.Constant) and isinstance(n.value, str)}
+    return {"query_type", "mutation_type", "subscription_type", "name", "interfaces", "types", "values", "locations",
+            "fields", "arguments", "directives", "type"} <= attrs
+
+
 def cache_and_signature_flags():
     """(cache_tracks_assignments, outer_signature):
        Schema.validate() does more than test `self._is_valid is None` before trusting the cached verdict (fix C13-HH1);
@@ -812,6 +825,8 @@ def _extract_tables(ctx=None):
            "def cfgCacheTracksAssignments : Bool := %s" % ("true" if cache_and_signature_flags()[0] else "false"),
            "/-- the cached verdict also stands for the ARGUMENTS of every field it was computed with (fix C13-HHH3) -/",
            "def cfgCacheTracksArguments : Bool := %s" % ("true" if cache_tracks_arguments() else "false"),
+           "/-- the cached verdict stands for everything the validator reads: root types, names, members, directives (fix C13-S12) -/",
+           "def cfgCacheTracksStructure : Bool := %s" % ("true" if cache_tracks_structure() else "false"),
            "/-- the resolver-signature rule inspects the callable itself, not what it `functools.wraps` (fix C13-HH2) -/",
            "def cfgOuterSignature : Bool := %s" % ("true" if cache_and_signature_flags()[1] else "false"),
            "", "/-- the proposed fix C13-S4-S6 is present in the working tree -/",
